@@ -199,6 +199,43 @@ pub fn near_miss(src: &str, rng: &mut Rng) -> String {
     near_miss_with(src, rng, false)
 }
 
+/// Every single-identifier wrap ([x], (x, x), {a = x}, (|| x)) of every generic template.
+pub fn template_variants() -> Vec<String> {
+    let mut out = vec![];
+    for t in GENERIC_TEMPLATES {
+        let b = t.as_bytes();
+        let mut i = 0;
+        while i < b.len() {
+            if b[i].is_ascii_lowercase() && (i == 0 || !(b[i - 1].is_ascii_alphanumeric() || b[i - 1] == b'_' || b[i - 1] == b'.')) {
+                let mut j = i;
+                while j < b.len() && (b[j].is_ascii_alphanumeric() || b[j] == b'_') {
+                    j += 1;
+                }
+                let w = &t[i..j];
+                let kw = matches!(w, "fn" | "let" | "if" | "else" | "dsp");
+                let next = t[j..].trim_start().chars().next().unwrap_or(' ');
+                let before = t[..i].trim_end();
+                let binder = before.ends_with("let") || before.ends_with('|') || before.ends_with("fn") || {
+                    // parameter list of a declaration: `fn name(` .. `){`
+                    let open = t[..i].rfind('(').unwrap_or(0);
+                    t[..open].trim_end().split_whitespace().rev().nth(1) == Some("fn")
+                };
+                if !kw && !binder && !matches!(next, '=' | '(' | ':') {
+                    for r in [format!("[{w}]"), format!("({w}, {w})"), format!("{{a = {w}}}"), format!("(|| {w})")] {
+                        let mut v = t.to_string();
+                        v.replace_range(i..j, &r);
+                        out.push(v);
+                    }
+                }
+                i = j;
+            } else {
+                i += 1;
+            }
+        }
+    }
+    out
+}
+
 /// `any_ident`: the wrap mutation may hit any lower-case identifier use (hand-written templates)
 pub fn near_miss_with(src: &str, rng: &mut Rng, any_ident: bool) -> String {
     let mut s = src.to_string();
@@ -330,7 +367,8 @@ pub fn run(args: &Args, out: &mut Out) {
     let ncorpus = files.len();
     let nmut = if args.thorough() { ncorpus * 6 } else { ncorpus / 3 };
     let ngen = args.cases(420, 40000);
-    let total = ncorpus + nmut + ngen;
+    let variants = template_variants();
+    let total = ncorpus + nmut + ngen + variants.len();
     drive(
         args,
         out,
@@ -365,6 +403,20 @@ pub fn run(args: &Args, out: &mut Out) {
                     scheduler: true,
                     path: Some(f.to_string_lossy().to_string()),
                     origin: Some(origin),
+                    split: None,
+                })
+            } else if idx >= ncorpus + nmut + ngen {
+                // enumerated: every single wrap mutation of every generic template
+                Some(Case {
+                    src: variants[idx - (ncorpus + nmut + ngen)].clone(),
+                    n: 4,
+                    input_seed: 1,
+                    finite_inputs: true,
+                    prog: None,
+                    expect: None,
+                    scheduler: false,
+                    path: None,
+                    origin: Some("nearmiss:generic-template-variant".into()),
                     split: None,
                 })
             } else {
